@@ -49,8 +49,12 @@ def _library_frames(tb):
 
 
 def _exec_checked(profile, case, known):
+    from . import simfs
+    ev0 = simfs.EVENTS[0]
     try:
         res = profile.execute(case)
+        if not res.io_events:
+            res.io_events = simfs.EVENTS[0] - ev0
     except Exception as exc:
         # an exception that escapes from library code through a harness path that does not expect one is the
         # library misbehaving (on the unchanged tree no check raises), not a harness error
